@@ -5,7 +5,7 @@
 (* with its limb count n; B = 2^64.  PostN(f, i, o): i = inputs as logged  *)
 (* before the call, o = outputs as logged after it.                        *)
 (***************************************************************************)
-EXTENDS Naturals, Integers, Sequences, BigZ, IOFormat, PrintfLayout, CxxSem, SemIO
+EXTENDS Naturals, Integers, Sequences, FiniteSets, BigZ, IOFormat, PrintfLayout, CxxSem, SemIO
 
 LOCAL W == 64
 LOCAL Bn(n) == ZPow2(W * n)
@@ -163,6 +163,46 @@ PostN(f, i, o) ==
      [] f = "mpn_sqrtrem" -> /\ o.s = ZISqrt(i.a) /\ o.r = ZSub(i.a, ZMul(o.s, o.s)) /\ o.rn = ZLimbCount(o.r)
      [] f = "mpn_sqrtrem_null" -> /\ o.s = ZISqrt(i.a) /\ Bool(o.rn, ZMul(o.s, o.s) # i.a)
      [] f = "mpn_perfect_square_p" -> Bool(o.ret, ZMul(ZISqrt(i.a), ZISqrt(i.a)) = i.a)
+        \* rootrem.c: "Put in {rootp, ceil(un/k)} the kth root of {up, un}, rounded toward zero. If remp <> NULL, put in {remp, un} the remainder.
+        \*  Return the size (in limbs) of the remainder if remp <> NULL, or a non-zero value iff the remainder is non-zero when remp = NULL."
+        \*  ASSERT (un > 0); ASSERT (up[un - 1] != 0); ASSERT (k > 1).  mpn_rootrem_basecase: the routine used below ROOTREM_THRESHOLD, same contract.
+     [] f \in {"mpn_rootrem", "mpn_rootrem_basecase"} ->
+           /\ i.k > 1 /\ i.n > 0 /\ o.s = ZIRoot(i.a, i.k) /\ o.r = ZSub(i.a, ZPow(o.s, i.k)) /\ o.rn = ZLimbCount(o.r)
+     [] f = "mpn_rootrem_null" -> i.k > 1 /\ o.s = ZIRoot(i.a, i.k) /\ Bool(o.rn, ZPow(o.s, i.k) # i.a)
+        \* ---- C16 internals
+        \* fib2_ui.c: "Store F[n] at fp and F[n-1] at f1p. ... The return value is the actual number of limbs stored, this will be at least 1.
+        \*  fp[size-1] will be non-zero, except when n==0, in which case fp[0] is 0 and f1p[0] is 1."
+     [] f = "mpn_fib2_ui" -> LET nz == ZFromInt(i.n) IN
+           /\ o.f = ZFib(nz) /\ o.f1 = (IF i.n = 0 THEN "1" ELSE ZFib(ZFromInt(i.n - 1)))
+           /\ o.ret >= 1 /\ (i.n > 0 => o.ret = ZLimbCount(o.f) /\ o.top # "0") /\ (i.n = 0 => o.ret = 1)
+        \* oddfac_1.c: "computes the odd part of the factorial of the parameter n. I.e. n! = x 2^a, where x is the returned value: an odd positive
+        \*  integer. If flag != 0 a square is skipped in the DSC part, e.g. if n is odd, n > FAC_DSC_THRESHOLD and flag = 1, x is set to n!!."
+        \*  (callers pass flag = 1 only for odd n: the driver stays in that domain)
+     [] f = "mpz_oddfac_1" -> LET OddPart(v) == ZShr(v, ZCtz(v)) IN
+           /\ o.wf = 1 /\ o.sz = ZLimbCount(o.r)
+           /\ o.r = (IF i.flag = 0 THEN OddPart(ZFac(i.n)) ELSE ZTDivQ(OddPart(ZFac(i.n)), OddPart(ZFac(i.n \div 2))))
+        \* prodlimbs.c: "Computes the product of the j>1 limbs pointed by factors, puts the result in x. It assumes that all limbs are non-zero.
+        \*  ... Returns the size of the result"
+     [] f = "mpz_prodlimbs" -> LET RECURSIVE Prod(_) 
+                                   Prod(k) == IF k = 0 THEN "1" ELSE ZMul(Prod(k - 1), i.fs[k]) IN
+           /\ i.j > 1 /\ Len(i.fs) = i.j /\ o.r = Prod(i.j) /\ o.ret = ZLimbCount(o.r) /\ o.sz = o.ret
+        \* trial_division.c: "Returns smallest d such that d|N, start <= d < stop, d != 1. If no such d exists return 0. ... N must have no divisors < start."
+     [] f = "mpz_trial_division" ->
+           LET Cand == {d \in (IF i.start < 2 THEN 2 ELSE i.start)..(i.stop - 1) : ZDivides(ZFromInt(d), i.N)} IN
+           IF Cand = {} THEN o.ret = 0 ELSE o.ret \in Cand /\ \A d \in Cand : o.ret <= d
+        \* primesieve.c: "Fills bit_array with the characteristic function of composite numbers up to the parameter n. I.e. a bit set to "1" represent a
+        \*  composite, a "0" represent a prime. ... The returned value counts prime integers in the interval [4, n]. Note that n > 4. Even numbers and
+        \*  multiples of 3 are excluded "a priori", only numbers equivalent to +/- 1 mod 6 have their bit in the array. ... the represented prime is
+        \*  bit_to_n(b)";  bit_to_n(b) = id_to_n(b+1) = (b+1)*3+1+((b+1)&1);  n_to_bit(n) = ((n-5)|1)/3
+     [] f = "gmp_primesieve" ->
+           LET top == (IF (i.n - 5) % 2 = 0 THEN i.n - 4 ELSE i.n - 5) \div 3
+               BitToN(b) == (b + 1) * 3 + 1 + ((b + 1) % 2)
+               Ps == {b \in 0..top : BitToN(b) <= i.n /\ ZIsPrime(ZFromInt(BitToN(b)))} IN
+           /\ i.n > 4
+           /\ \A b \in 0..top : BitToN(b) <= i.n => (ZTestBit(o.bits, b) = (b \notin Ps))
+           /\ o.ret = Cardinality(Ps)
+        \* nextprime.c: successive primes from a fresh sieve (2, 3, 5, ...)
+     [] f = "gmp_nextprime" -> ZFromInt(o.p) = ZNextPrime(ZFromInt(i.prev))
         \* ---- C06
         \* ---- C17: documented external formats and stream faults (see IOFormat.tla)
      [] f = "mpz_export" ->
